@@ -22,7 +22,7 @@ MANIFEST = {
             "dispatch of encoding classes without a class theorem, the opcode tables. Trusted: Lean kernel + bv_decide certificates; "
             "Spec/X86Decode.lean as the reading of the SDM; db/x86.js + tools/gen_c01.py (with its listed database errata); harness/driver/diff.",
 }
-MODS = ["AsmjitVerif.Props.C01", "AsmjitVerif.Props.C01Front", "AsmjitVerif.Props.C01Rows", "AsmjitVerif.Props.C01Front32", "AsmjitVerif.Props.C01Rows32", "AsmjitVerif.Props.C01FrontMem", "AsmjitVerif.Props.C01FrontMemG", "AsmjitVerif.Props.C01FrontMemV", "AsmjitVerif.Props.C01FrontMemX", "AsmjitVerif.Props.C01RowsMem", "AsmjitVerif.Props.C01FrontDec", "AsmjitVerif.Props.C01FrontMemB", "AsmjitVerif.Props.C01RowsMemB", "AsmjitVerif.Props.C01FrontLeg32", "AsmjitVerif.Props.C01FrontArith", "AsmjitVerif.Props.C01RowsArith", "AsmjitVerif.Props.C01FrontOpReg", "AsmjitVerif.Props.C01FrontLegMem", "AsmjitVerif.Props.C01RowsLegMem", "AsmjitVerif.Props.C01RowsMov", "AsmjitVerif.Props.C01FrontMr", "AsmjitVerif.Props.C01RowsMr", "AsmjitVerif.Props.C01FrontRel", "AsmjitVerif.Props.C01FrontAbs"]
+MODS = ["AsmjitVerif.Props.C01", "AsmjitVerif.Props.C01Front", "AsmjitVerif.Props.C01Rows", "AsmjitVerif.Props.C01Front32", "AsmjitVerif.Props.C01Rows32", "AsmjitVerif.Props.C01FrontMem", "AsmjitVerif.Props.C01FrontMemG", "AsmjitVerif.Props.C01FrontMemV", "AsmjitVerif.Props.C01FrontMemX", "AsmjitVerif.Props.C01RowsMem", "AsmjitVerif.Props.C01FrontDec", "AsmjitVerif.Props.C01FrontMemB", "AsmjitVerif.Props.C01RowsMemB", "AsmjitVerif.Props.C01FrontLeg32", "AsmjitVerif.Props.C01FrontArith", "AsmjitVerif.Props.C01RowsArith", "AsmjitVerif.Props.C01FrontOpReg", "AsmjitVerif.Props.C01FrontLegMem", "AsmjitVerif.Props.C01RowsLegMem", "AsmjitVerif.Props.C01RowsMov", "AsmjitVerif.Props.C01FrontMr", "AsmjitVerif.Props.C01RowsMr", "AsmjitVerif.Props.C01FrontRel", "AsmjitVerif.Props.C01FrontAbs", "AsmjitVerif.Props.C01FrontOpt", "AsmjitVerif.Props.C01FrontDec32"]
 BASE = c01_forms.BASE_ADDR
 
 # classes of known, not (yet) repaired findings -> stable keys (known_findings.json)
@@ -138,7 +138,7 @@ def _addr_form_ok(m, mode, vex):
     return None       # label, index without base, 16-bit, VSIB, 64-bit / zero-extended absolute, relative
 
 
-def theorem_family(ew, enc, names):
+def theorem_family(ew, enc, names, iflags=0x400000):
     """ew: fields of the emit line; enc: encoding class of the instruction row; names: gen_c01.COVER_NAMES -> family name or None"""
     mode, name, opts, k, ops = int(ew[0]), ew[3], ew[4], ew[5], ew[6:]
     optl = [] if opts == "-" else opts.split(",")
@@ -163,6 +163,14 @@ def theorem_family(ew, enc, names):
     # --- alternative encodings selected by mod_mr() / mod_rm()
     if enc in (0x85, 0x88) and mode == 64 and optl == ["modmr"] and k == "-" and sig == "RRR" and inn("xrvm"):
         return "xop_rvm_modmr"
+    if mode == 64 and optl == ["long"] and k == "-":          # dispatch_long / dispatch_long_mi + legacy_emit_lowopt
+        if enc == 0x19 and sig == "RI" and regs[0] in ("gpw", "gpd", "gpq") and (regs[0] != "gpq" or -2 ** 31 <= s64(imms[0]) < 2 ** 31):
+            return "arith_imm_long"
+        if enc == 0x19 and sig == "MI" and af and int(mems[0].split(":")[1]) in (1, 2, 4, 8) and \
+                (int(mems[0].split(":")[1]) != 8 or -2 ** 31 <= s64(imms[0]) < 2 ** 31):
+            return "arith_mi_long"
+        if enc == 0x2C and sig == "RI" and regs[0] == "gpq":
+            return "mov_ri_long"
     if enc in (0x19, 0x2C) and mode == 64 and optl == ["modrm"] and k == "-" and sig == "RR" and regs[0] == regs[1] and regs[0] in ("gpw", "gpd", "gpq"):
         return "rr_modrm"
     # --- VEX / EVEX classes
@@ -172,15 +180,29 @@ def theorem_family(ew, enc, names):
         if len(sig) != len(want) or any(w != "X" and w != s for w, s in zip(want, sig)) or not inn(sh):
             return None
         xi = want.index("X")
+        if sig[xi] == "R" and k == "-" and optl in (["evex"], ["vex3"], ["vex"]) and sh in ("rvm", "rm", "rvmi", "rmi"):
+            return "vex_reg" + ("32" if mode == 32 else "") + "_opt_" + optl[0]          # Props/C01FrontOpt.lean
         if sig[xi] == "R":
+            if "evex" in optl and sh in ("rvm", "rm", "rvmi", "rmi") and (k != "-" or any(o in ("z", "er", "sae") for o in optl)):
+                optl = [o for o in optl if o != "evex"]          # emitVexEvexR_evex_dec: neutral next to a decoration
+                if not optl and k == "-":
+                    return None
             if any(o not in ("z", "er", "sae", "rn", "rd", "ru", "rz") for o in optl):
                 return None
             if mode == 32:
-                return "vex_reg32" if not optl and k == "-" and sh in ("rvm", "rm", "rvmi", "rmi") else None
+                if sh not in ("rvm", "rm", "rvmi", "rmi"):
+                    return None
+                return "vex_reg32" if not optl and k == "-" else "vex_reg32_dec"          # Props/C01FrontDec32.lean
             if sh in ("mr", "mri") and (optl or k != "-"):
                 return None
             return "vex_reg" + ("_dec" if optl or k != "-" else "")
         if sig[xi] == "M" and mode == 64:
+            if optl == ["vex"]:
+                optl = []                       # emitVexEvexM_vexopt: neutral
+            elif "evex" in optl and all(o in ("evex", "z") for o in optl) and sh in ("rvm", "rm", "rvmi", "rmi") and not bc:      # .._mem_evexopt
+                optl = [o for o in optl if o != "evex"]
+            elif optl == ["evex"] and not iflags & 0x400000:
+                optl = []                       # emitVexEvexM_evexopt_evexonly: EVEX-only instruction, the option changes no byte
             if any(o != "z" for o in optl):
                 return None
             if bc and (sh in ("mr", "mri") or af == "abs"):
@@ -489,20 +511,23 @@ def run(res):
         fam = collections.Counter()
         outside = collections.Counter()
         encn = encoding_names()
+        cov_mode = collections.Counter()
         for i in acc:
             ew = emits[i].split()
             if ew[3] not in rows:
                 continue
             encid = int(rows[ew[3]][1])
-            t = theorem_family(ew, encid, gen_c01.COVER_NAMES)
+            t = theorem_family(ew, encid, gen_c01.COVER_NAMES, int(rows[ew[3]][4], 16))
             if t:
                 fam[t.split("_mem_")[0] + ("_mem" if "_mem_" in t else "")] += 1
+                cov_mode[ew[0]] += 1
             else:
                 outside["(32-bit mode, any class)" if ew[0] == "32" else encn.get(encid, "enc_%02x" % encid)] += 1
         ncov = sum(fam.values())
         res.coverage["class_theorem_domain"] = {
             "accepted_calls": len(acc), "inside_some_theorem": ncov, "fraction": round(ncov / max(1, len(acc)), 4),
-            "fraction_64bit": round(ncov / max(1, sum(1 for i in acc if emits[i].startswith("64 "))), 4),
+            "fraction_64bit": round(cov_mode["64"] / max(1, sum(1 for i in acc if emits[i].startswith("64 "))), 4),
+            "fraction_32bit": round(cov_mode["32"] / max(1, sum(1 for i in acc if emits[i].startswith("32 "))), 4),
             "by_family": dict(fam.most_common()), "outside_by_encoding_class": dict(outside.most_common()),
             "note": "Python approximation of the hypotheses of the front_cls_correct_* theorems and their dispatch lemmas"}
     except Exception as ex:
